@@ -388,6 +388,12 @@ func genC03(r *rand.Rand, n int, emit func(Op)) {
 			routes = append(routes, map[string]any{"h": h, "path": path, "resp": genResponse(r, fmt.Sprintf("d%d@H%d", d, h), status, ""), "fault": ""})
 			docs = append(docs, fmt.Sprintf("https://{H%d}%s", h, path))
 		}
+		if r.Intn(3) == 0 {
+			/* a second document whose URL differs from the first one's in letter case only */
+			h0 := I(Op(routes[0].(map[string]any)), "h")
+			routes = append(routes, map[string]any{"h": h0, "path": "/{OP}/D0", "resp": genResponse(r, fmt.Sprintf("D0@H%d", h0), "HTTP/1.0 200 OK", ""), "fault": ""})
+			docs = append(docs, fmt.Sprintf("https://{H%d}/{OP}/D0", h0), fmt.Sprintf("https://{H%d}/{OP}/d0", h0))
+		}
 		targets := append([]string{}, docs...)
 		/* redirect chains / cycles */
 		nr := r.Intn(5)
@@ -524,7 +530,7 @@ func genC05(r *rand.Rand, n int, emit func(Op)) {
 		if r.Intn(6) == 0 {
 			body += pick(r, []string{"\n", " ", "trailing"})
 		}
-		resp := "HTTP/1.0 200 OK\r\n" + pick(r, []string{"", "Server: s\r\n"}) + "Content-Type: application/activity+json\r\n\r\n" + body
+		resp := pick(r, []string{"HTTP/1.0 200 OK", "HTTP/1.0 200 OK", "HTTP/1.0 201 Created", "HTTP/1.0 202 Accepted", "HTTP/1.1 203 Non-Authoritative"}) + "\r\n" + pick(r, []string{"", "Server: s\r\n", "Content-Length: 67\r\n"}) + "Content-Type: application/activity+json\r\n\r\n" + body
 		hops := r.Intn(3)
 		faultAt := r.Intn(hops + 1) // which hop carries the fault (0 = the document)
 		routes := []any{}
@@ -556,7 +562,7 @@ func genC05(r *rand.Rand, n int, emit func(Op)) {
 				end := strings.Index(text, "\r\n\r\n") + 4
 				/* a redirect is followed as soon as its Location line is complete */
 				limit := strings.Index(text, "Location: ") + len("Location: ") + 3
-				if strings.HasPrefix(text, "HTTP/1.0 200") {
+				if strings.HasPrefix(text, "HTTP/1.0 20") || strings.HasPrefix(text, "HTTP/1.1 20") {
 					limit = end + (len(text)-end)/3
 				}
 				k := limit
@@ -573,6 +579,11 @@ func genC05(r *rand.Rand, n int, emit func(Op)) {
 		fault := ""
 		if faultAt == 0 {
 			fault = mkFault(resp)
+			if r.Intn(8) == 0 {
+				/* the document cut exactly where its header block ends, closed cleanly: a body of
+				   zero bytes is not a document, whatever the status said */
+				fault = fmt.Sprintf("cut:%d:eof", strings.Index(resp, "\r\n\r\n")+4)
+			}
 		}
 		routes = append(routes, map[string]any{"h": 0, "path": "/{OP}/d0", "resp": resp, "fault": fault})
 		prev := "https://{H0}/{OP}/d0"
